@@ -167,3 +167,66 @@ func c01ReportLast(w *World, r *Report, rule string) {
 		r.Unk(rule, "no-site", "-", "no worker reporting over a channel found in pkg/action")
 	}
 }
+
+// c01NameReuse: a name whose history was found is handed out again only with Replace set: after the
+// status of the last revision was looked at, every success return lies behind the true edge of Replace
+// (without it the new release would not get the next revision number).
+func c01NameReuse(w *World, r *Report) {
+	r.Rule("C01/NAME-REUSE", "Install.availableName returns successfully after looking at the last revision's status only on the edge where Replace is set", 1)
+	fn := w.Fn("pkg/action", "Install.availableName")
+	if fn == nil {
+		r.Unk("C01/NAME-REUSE", "anchor", "-", "Install.availableName not found")
+		return
+	}
+	r.Fn(FuncName(fn))
+	g := FullGraph(fn)
+	var statusLoads []ssa.Instruction
+	var replaceTrue []Edge
+	for _, b := range fn.Blocks {
+		for _, in := range b.Instrs {
+			ld, ok := in.(*ssa.UnOp)
+			if !ok || ld.Op != token.MUL {
+				continue
+			}
+			if fa, ok := ld.X.(*ssa.FieldAddr); ok {
+				if isFieldOf(fa, relPkg, "Info", "Status") {
+					statusLoads = append(statusLoads, ld)
+				}
+				if _, t, f := fieldNameOf(fa); t == "Install" && f == "Replace" {
+					for _, e := range condEdges(ld) {
+						if e.truth {
+							replaceTrue = append(replaceTrue, e.Edge)
+						}
+					}
+				}
+			}
+		}
+	}
+	if len(statusLoads) == 0 {
+		r.Unk("C01/NAME-REUSE", "no-status", w.Pos(fn.Pos()), "availableName does not look at the last revision's status")
+		return
+	}
+	n := 0
+	for i, rp := range g.classifyReturns() {
+		if rp.Class != RetSuccess {
+			continue
+		}
+		reach, viol := false, false
+		for _, l := range statusLoads {
+			if ex, _ := g.PathExists(posOf(l), retPos(rp), Avoid{}); ex {
+				reach = true
+				if ex2, _ := g.PathExists(posOf(l), retPos(rp), Avoid{}.withEdges(replaceTrue...)); ex2 {
+					viol = true
+				}
+			}
+		}
+		if !reach {
+			continue
+		}
+		n++
+		r.Check(!viol && len(replaceTrue) > 0, "C01/NAME-REUSE", fmt.Sprintf("return#%d", i), w.InstrPos(rp.Ret), "the name of an existing history is reused only with Replace", "the name of an existing history can be handed out without Replace being set: the install does not take the next revision number but starts again at revision 1, below (or on top of) the revisions that are still stored")
+	}
+	if n == 0 {
+		r.Unk("C01/NAME-REUSE", "no-reuse", w.Pos(fn.Pos()), "no success return after the status was looked at")
+	}
+}
